@@ -3,6 +3,8 @@ from fractions import Fraction
 import gen_bank as G
 import gen_hops as H
 import hops_oracles as O
+from props import txgen as TG
+from props import c11 as C11
 ID = "C16"
 MANIFEST = {
     "text": ("Kernel-checked invariants, by induction over operation sequences of any length: at handler level (deposit, withdraw(all), "
@@ -505,10 +507,25 @@ def suites(rng, tier):
     ll = [gen_life(rng) for _ in range(n_l)]
     return [{"suite": "hops", "name": "hops-structure", "lines": hl, "distribution": dict(dist_h, cases=n_h)},
             {"suite": "bankops", "name": "bankops-structure", "lines": blines, "distribution": dict(dist_b, cases=n_b)},
-            {"suite": "acctlife", "name": "acctlife", "lines": ll, "distribution": {"cases": n_l, "flags": len(FLAGS)}}]
+            {"suite": "acctlife", "name": "acctlife", "lines": ll, "distribution": {"cases": n_l, "flags": len(FLAGS)}},
+            flashloan_on_flagged(rng, {"quick": 300, "thorough": 4000, "search": 1000}[tier])]
+
+
+def flashloan_on_flagged(rng, n):
+    """'a disabled account can no longer ... start a flash loan': flash-loan transactions (real handlers, instructions sysvar)
+    on accounts whose flag word has DISABLED (alone or with FROZEN / others) set from the start"""
+    lines = []
+    while len(lines) < n:
+        l = TG.fl_tx(rng)
+        cfg = l.split(" ; ")[0].split()
+        if any(int(f) & 1 for f in cfg[2:6]):
+            lines.append(l)
+    return {"suite": "txsim", "name": "flashloan-on-disabled-account", "lines": lines, "distribution": {"transactions": n}}
 
 
 def nontrivial(suite, case, impl):
+    if suite == "txsim":
+        return impl.startswith(("OK", "ERR"))
     if suite == "hops":
         tr = O.Trace(case, impl)
         return tr.ok and sum(1 for x in O.walk(tr) if x[1] == "OK" and x[0][0] in (1, 2, 3, 4, 7, 17, 18)) >= 3
@@ -637,6 +654,9 @@ def oracle_bankops(case, impl):
 
 
 def oracle(suite, case, impl):
+    if suite == "txsim":
+        v = C11.oracle_sim(case, impl)
+        return v if v and v["key"] in ("start-on-disabled-or-frozen", "harness") else None
     if suite == "hops":
         return oracle_hops(case, impl)
     if suite == "bankops":
